@@ -36,7 +36,22 @@ def nval(v):
 def mk_value(val):
   if val[0] == 'P':
     return wrappers_pb2.Int64Value(value=int(val[1]))
+  if val[0] == 'PS':
+    return wrappers_pb2.StringValue(value=str(val[1]))
+  if val[0] == 'PB':
+    return wrappers_pb2.BoolValue(value=bool(val[1]))
   return str(val[1])
+
+
+def gen_value(rng):
+  """String, empty string, or a packed proto; protos are often all-default (empty payload)."""
+  r = rng.random()
+  if r < 0.30:
+    return rng.choice([['P', 0], ['P', 0], ['P', rng.randrange(1, 50)], ['P', rng.randrange(1, 50)],
+                       ['PS', ''], ['PS', str(rng.randrange(50))], ['PB', 0], ['PB', 1]])
+  if r < 0.40:
+    return ['S', '']
+  return ['S', str(rng.randrange(50))]
 
 
 def md_to_dict(md):
@@ -98,7 +113,7 @@ class C10(runner.Check):
   rule = ('one evaluation = one generated history of user writes (clients.Study/Trial.update_metadata, raw '
           'UpdateMetadata with mixed study/trial items, sometimes naming a missing trial) and algorithm '
           'writes (MetadataDelta emitted by a hosted policy during SuggestTrials, sometimes naming a missing '
-          'trial) in namespaces over an adversarial alphabet, string and packed-proto values, interleaved '
+          'trial) in namespaces over an adversarial alphabet, string and packed-proto values (three wrapper types, often with an all-default empty payload), interleaved '
           'with suggest/complete/delete/add-trial and server reopen, on all three backends; after every op '
           'materialize_study_config().metadata and every Trial.materialize().metadata must equal a '
           'dict model exactly; distinct = hash of the multiset of (scope, namespace shape, writer kind, value '
@@ -111,7 +126,7 @@ class C10(runner.Check):
   budget_s = {'quick': 100, 'thorough': 1200}
   chunk = 20
   probes = ['probe.overwrite', 'probe.algo-write', 'probe.user-write', 'probe.missing-trial-rejected',
-            'probe.algo-missing-trial', 'probe.proto-value', 'probe.empty-value', 'restart.clean',
+            'probe.algo-missing-trial', 'probe.proto-value', 'probe.proto-default-payload', 'probe.proto-overwrites-proto', 'probe.empty-value', 'restart.clean',
             'probe.ns-roundtrip-checked', 'probe.adversarial-namespace']
 
   def gen(self, rng, idx, tier):
@@ -132,8 +147,7 @@ class C10(runner.Check):
         if rng.random() < trial_p:
           prefs = ['any', 'any', 'active', 'completed', 'max'] + (['missing'] if allow_missing else [])
           tr = {'pref': rng.choice(prefs), 'i': rng.randrange(8)}
-        r = rng.random()
-        val = ['P', rng.randrange(50)] if r < 0.2 else (['S', ''] if r < 0.3 else ['S', str(rng.randrange(50))])
+        val = gen_value(rng)
         out.append({'trial': tr, 'ns': list(rng.choice(nss)), 'key': rng.choice(KEYS[:3] if rng.random() < 0.5 else KEYS), 'value': val})
       return out
 
@@ -241,6 +255,7 @@ class C10(runner.Check):
           ns = tuple(root) + tuple(it['ns'])
           v = nval(mk_value(it['value']))
           tgt = model_study if it['trial'] is None else model_trials.setdefault(it['trial'], {})
+          tgt_old = dict(tgt)
           if (ns, it['key']) in tgt:
             overwrite = True
             res.bump('probe.overwrite')
@@ -249,6 +264,11 @@ class C10(runner.Check):
           shapes.append((it['trial'] is None, len(ns), 'algo' if root else 'user', v[0]))
           if v[0] == 'P':
             res.bump('probe.proto-value')
+            if v[2] == '':
+              res.bump('probe.proto-default-payload')
+            old = tgt_old.get((ns, it['key']))
+            if old is not None and old[0] == 'P' and old != v:
+              res.bump('probe.proto-overwrites-proto')
           if v == ('S', ''):
             res.bump('probe.empty-value')
           if any(c in (':', '\\') for comp in ns for c in comp) or '' in ns:
